@@ -7,7 +7,7 @@ from pv import env, exact, gens
 
 ID = "C07"
 LEVEL = "exploration"
-N = {"quick": 350, "thorough": 8000}
+N = {"quick": 1400, "thorough": 8000}
 RULE = ("cases = (constraint list, context|None) or a contract to build/simplify, <=6 terms over <=5 variables, with planted "
         "redundancy (duplicates, scalings, positive combinations, loosened copies, terms implied only via the context), tight "
         "and nearly-tight margins, infeasible systems; number classes small-integer/dyadic, decimal, wide-magnitude; "
